@@ -352,6 +352,163 @@ def translate_stages(tree):
     return out
 
 
+
+# ----------------------------------------------------------------------------- the dim-string parser (C14)
+
+FLAGS = {"broadcastable": "b", "variadic": "v", "anonymous": "a", "treepath": "t"}
+KINDS = {"named": "named", "fixed": "fixed", "symbolic": "symbolic"}
+CTORS = {
+    "_FixedDim(elem, broadcastable)": "fixed", "_anonymous_variadic_dim": "anonVar", "_anonymous_dim": "anon",
+    "_NamedVariadicDim(elem, broadcastable, treepath)": "namedVar", "_NamedDim(elem, broadcastable, treepath)": "named",
+    "_SymbolicDim(elem, broadcastable)": "sym",
+}
+
+
+def _lchar(c):
+    return "'\\''" if c == "'" else "'" + c + "'"
+
+
+class _ParserTranslator:
+    """statement-by-statement translation of the loop body into `PStmt` terms (Model/ParserDsl.lean)"""
+
+    def __init__(self):
+        self.loops = []          # bodies of `while True` loops, in source order
+        self.first_char_ok = False   # `first_char` holds `elem[0]` of the CURRENT `elem`
+        self.notes = []
+
+    def cond(self, e):
+        src = _src(e)
+        if isinstance(e, ast.BoolOp):
+            op = ".and" if isinstance(e.op, ast.And) else ".or"
+            out = self.cond(e.values[-1])
+            for v in reversed(e.values[:-1]):
+                out = f"({op} {self.cond(v)} {out})"
+            return out
+        if isinstance(e, ast.UnaryOp) and isinstance(e.op, ast.Not):
+            return f"(.not {self.cond(e.operand)})"
+        if isinstance(e, ast.Name) and e.id in FLAGS:
+            return f"(.flag .{FLAGS[e.id]})"
+        table = {
+            "',' in elem": ".hasComma", "',' not in elem": "(.not .hasComma)", "'(' in elem": ".hasParen", "'(' not in elem": "(.not .hasParen)",
+            "elem.endswith('#')": ".endsHash", "'...' in elem": ".hasEllipsis", "'...' not in elem": "(.not .hasEllipsis)",
+            "elem == '...'": ".eqEllipsis", "elem != '...'": "(.not .eqEllipsis)",
+            "index_variadic is not None": ".ivSet", "index_variadic is None": "(.not .ivSet)",
+            "len(elem) == 0": ".lenZero", "elem == ''": ".lenZero", "len(elem) != 0": "(.not .lenZero)", "len(elem) > 0": "(.not .lenZero)",
+            "elem.count('=') == 1": ".countEqOne", "elem.isidentifier()": ".isIdent",
+        }
+        if src in table:
+            return table[src]
+        if isinstance(e, ast.Compare) and len(e.ops) == 1 and isinstance(e.ops[0], (ast.Is, ast.Eq, ast.IsNot, ast.NotEq)) \
+                and _src(e.left) == "dim_type" and _src(e.comparators[0]).startswith("_DimType.") and _src(e.comparators[0])[9:] in KINDS:
+            c = f"(.kindIs .{KINDS[_src(e.comparators[0])[9:]]})"
+            return c if isinstance(e.ops[0], (ast.Is, ast.Eq)) else f"(.not {c})"
+        if isinstance(e, ast.Compare) and len(e.ops) == 1 and isinstance(e.ops[0], (ast.Eq, ast.NotEq)) and _src(e.left) == "first_char" \
+                and isinstance(e.comparators[0], ast.Constant) and isinstance(e.comparators[0].value, str) and len(e.comparators[0].value) == 1 \
+                and ord(e.comparators[0].value) < 128:
+            if not self.first_char_ok:
+                self.notes.append("first_char tested where it may not be elem[0]")
+                return ".unknown"
+            c = f"(.firstIs {_lchar(e.comparators[0].value)})"
+            return c if isinstance(e.ops[0], ast.Eq) else f"(.not {c})"
+        self.notes.append("condition not recognised: " + src[:60])
+        return ".unknown"
+
+    def seq(self, stmts):
+        stmts = _strip(stmts)
+        if not stmts:
+            return ".skip"
+        parts = [self.stmt(st) for st in stmts]   # left to right: `first_char_ok` follows the control flow of a block
+        out = parts[-1]
+        for p in reversed(parts[:-1]):
+            out = f"(.seq {p} {out})"
+        return out
+
+    def stmt(self, st):
+        src = _src(st)
+        if isinstance(st, ast.If):
+            c = self.cond(st.test)
+            keep = self.first_char_ok
+            t = self.seq(st.body)
+            self.first_char_ok = keep     # the tests of an if / elif chain all see the state before the chain
+            e = self.seq(st.orelse)
+            self.first_char_ok = False if (("dropFirst" in t + e) or ("afterEq" in t + e)) else keep
+            return f"(.ite {c} {t} {e})"
+        if isinstance(st, ast.Raise):
+            if st.exc is not None and _src(st.exc).startswith("ValueError("):
+                return ".raise"
+            self.notes.append("raise of something else: " + src[:60])
+            return ".unknown"
+        if isinstance(st, ast.Break):
+            return ".brk"
+        if isinstance(st, ast.Pass):
+            return ".skip"
+        if isinstance(st, ast.While):
+            if _src(st.test) != "True" or st.orelse:
+                self.notes.append("loop other than `while True`")
+                return ".unknown"
+            keep = self.first_char_ok
+            self.first_char_ok = False
+            body = self.seq(st.body)
+            self.first_char_ok = False
+            self.loops.append(body)
+            return f"(.loop parserLoopBody{'' if len(self.loops) == 1 else len(self.loops)})"
+        if isinstance(st, ast.Try):
+            body = _strip(st.body)
+            if len(body) == 1 and _src(body[0]) == "elem = int(elem)" and len(st.handlers) == 1 and _src(st.handlers[0].type) == "ValueError" \
+                    and st.handlers[0].name is None and not st.finalbody:
+                self.first_char_ok = False
+                return f"(.tryInt {self.seq(st.handlers[0].body)} {self.seq(st.orelse)})"
+            self.notes.append("try statement not recognised")
+            return ".unknown"
+        if isinstance(st, ast.Assign) and len(st.targets) == 1:
+            tgt, val = _src(st.targets[0]), _src(st.value)
+            if tgt in FLAGS and val in ("True", "False"):
+                return f"(.setFlag .{FLAGS[tgt]} {val.lower()})"
+            if tgt == "dim_type" and val.startswith("_DimType.") and val[9:] in KINDS:
+                return f"(.setKind .{KINDS[val[9:]]})"
+            if tgt == "first_char" and val == "elem[0]":
+                self.first_char_ok = True
+                # reading elem[0] of an empty string raises IndexError: a test of emptiness must come first
+                return "(.ite .lenZero .unknown .skip)"
+            if tgt == "elem" and val == "elem[1:]":
+                self.first_char_ok = False
+                return ".dropFirst"
+            if tgt in ("(_, elem)", "_, elem") and val == "elem.split('=')":
+                self.first_char_ok = False
+                return ".afterEq"
+            if tgt == "index_variadic" and val == "index":
+                return ".setIv"
+            if tgt == "elem" and val in CTORS:
+                self.first_char_ok = False
+                return f"(.mk .{CTORS[val]})"
+        if isinstance(st, ast.Expr) and src == "dims.append(elem)":
+            return ".append"
+        self.notes.append("statement not recognised: " + src[:60])
+        return ".unknown"
+
+
+def translate_parser(tree):
+    fn = next((n for n in tree.body if isinstance(n, ast.FunctionDef) and n.name == "_make_array_cached"), None)
+    if fn is None:
+        return ".unknown", [".unknown"], False, ["no _make_array_cached"]
+    loops = [n for n in fn.body if isinstance(n, ast.For) and _src(n.iter) == "enumerate(dim_str.split())"]
+    if len(loops) != 1:
+        return ".unknown", [".unknown"], False, ["the loop over dim_str.split() was not found"]
+    lp = loops[0]
+    tr = _ParserTranslator()
+    body = tr.seq(lp.body)
+    k = fn.body.index(lp)
+    before = [_src(s) for s in _strip(fn.body[:k])]
+    after = [_src(s) for s in _strip(fn.body[k + 1:k + 2])]
+    header = (_src(lp.target) == "(index, elem)" and not lp.orelse and "dims = []" in before and "index_variadic = None" in before
+              and after == ["dims = tuple(dims)"]
+              and any(isinstance(s, ast.If) and _src(s.test) == "not isinstance(dim_str, str)" and any(isinstance(r, ast.Raise) for r in s.body)
+                      for s in fn.body[:k])
+              # nothing in front of the loop rewrites the string or looks at its characters
+              and all(isinstance(s, (ast.Assign, ast.If, ast.Expr)) and "dim_str" not in _src(s).replace("isinstance(dim_str, str)", "") for s in _strip(fn.body[:k])))
+    return body, tr.loops or [".unknown"], bool(header), tr.notes
+
+
 def run():
     with open(os.path.join(REPO, "jaxtyping", "_array_types.py")) as fh:
         tree = ast.parse(fh.read())
@@ -382,7 +539,28 @@ def instancecheckStages : List IStage :=
 end JV.Generated
 """
     write_if_changed(os.path.join(GEN, "CheckCode.lean"), txt)
-    return {"check_dims_chain": chain, "variadic_code": code, "variadic_first": first, "stages": stages, "notes": [n for n in (note1, note2) if n]}
+    pbody, ploops, pheader, pnotes = translate_parser(tree)
+    loopdefs = "\n\n".join(
+        f"/-- the body of the {'' if i == 0 else str(i + 1) + '. '}`while True` loop that strips modifiers -/\ndef parserLoopBody{'' if i == 0 else i + 1} : PStmt :=\n  {b}"
+        for i, b in enumerate(ploops))
+    ptxt = f"""/- GENERATED by harness/translate.py from {REPO}/jaxtyping/_array_types.py on every run. Do not edit. -/
+import JaxVerif.Model.ParserDsl
+
+namespace JV.Generated
+
+{loopdefs}
+
+/-- the body of `for index, elem in enumerate(dim_str.split())` {('(' + '; '.join(pnotes)[:300] + ')') if pnotes else ''} -/
+def parserBody : PStmt :=
+  {pbody}
+
+/-- the statements around the loop body are the ones the model assumes -/
+def parserHeaderOk : Bool := {'true' if pheader else 'false'}
+
+end JV.Generated
+"""
+    write_if_changed(os.path.join(GEN, "ParserCode.lean"), ptxt)
+    return {"parser_notes": pnotes, "parser_header": pheader, "check_dims_chain": chain, "variadic_code": code, "variadic_first": first, "stages": stages, "notes": [n for n in (note1, note2) if n]}
 
 
 if __name__ == "__main__":
